@@ -341,7 +341,7 @@ def r174(ctx, repo):
              if isinstance(n, ast.FunctionDef) and n is not wrap]
     if not inner:
         raise AnalysisError("ignore_nan_inf: inner function lost")
-    inner = inner[0]
+    inner = inline_helpers(repo, KDE, inner[0])
     param = wrap.args.args[0].arg
     calls = [c for c in walk(inner) if isinstance(c, ast.Call)
              and txt(c.func) == param]
@@ -397,12 +397,23 @@ def r174(ctx, repo):
     tgt = txt(st.targets[0].value) if ok else None
     fresh = False
     if ok:
-        defs = [n for n in walk(inner) if isinstance(n, ast.Assign)
-                and txt(n.targets[0]) == tgt]
-        fresh = bool(defs) and all(isinstance(d.value, ast.Call) and
-                                   call_name(d.value) in (
-            "np.zeros_like", "np.zeros", "np.empty", "np.empty_like",
-            "np.full", "np.full_like", "np.ones_like") for d in defs)
+        def is_fresh(name, depth=0):
+            defs = [n for n in walk(inner) if isinstance(n, ast.Assign)
+                    and txt(n.targets[0]) == name]
+            if not defs or depth > 4:
+                return False
+            for d in defs:
+                if isinstance(d.value, ast.Call) and call_name(d.value) in (
+                        "np.zeros_like", "np.zeros", "np.empty",
+                        "np.empty_like", "np.full", "np.full_like",
+                        "np.ones_like"):
+                    continue
+                if isinstance(d.value, ast.Name) and is_fresh(
+                        d.value.id, depth + 1):
+                    continue
+                return False
+            return True
+        fresh = is_fresh(tgt)
     rets = [n for n in walk(inner) if isinstance(n, ast.Return)]
     ret_ok = bool(rets) and all(txt(r.value) == tgt for r in rets)
     ctx.ob("R17.4", bool(ok and fresh and ret_ok),
